@@ -8,22 +8,46 @@ NOT_APPLICABLE = {
     "C02": "oracle is serde's behaviour on the generated type vs a draft-07 validator: " + TOKEN + "; generation-time fragments are carried under C05/C10",
     "C03": "round trip through compiled generated Serialize/Deserialize: " + TOKEN,
     "C04": "two compiled crates exchanging JSON: " + TOKEN,
-    "C05": PENDING, "C06": PENDING, "C07": PENDING, "C08": PENDING, "C09": PENDING,
     "C11": "behaviour of emitted FromStr/Display/TryFrom templates: " + TOKEN,
     "C12": "absence of hash-order/address/environment flow into the output is an information-flow property of the whole crate; as a contract it would be out == spec_render(settings, schema), i.e. verification of the entire generator",
     "C13": "the policy decision table is fused with serde_json::from_value, VersionReq::parse, str::find, slicing and format!: Kani gave no result in 25 min with every string concrete, Verus rejects the string operations; lifting the table out by hand would be a model, not the code",
     "C14": "replacement lookup goes through sanitize (syn::parse_str crashes the Kani compiler), patches/derives/map type act on token templates; the separable unit (SchemaCache::lookup) did not verify within budget",
-    "C15": PENDING, "C16": PENDING, "C17": PENDING,
     "C18": "behaviour of the emitted builder template: " + TOKEN,
     "C19": "trait bounds of emitted items are decided by rustc: " + TOKEN,
 }
 
+PARTIAL = " Partial claim: only the clauses named in the evidence file (coverage.clauses_decided) are decided; coverage.clauses_not_decided lists the rest of the property, which this family of technique cannot reach."
+
 LEVEL_TEXT = {
-    "C10": "Proof over the full input domain of the selection function: for each of the format classes the numeric keywords, the default and the probe integer are symbolic over all finite f64, every loop is bounded by a constant of the code with unwinding assertions on, and the postconditions are the property's own wording (admitted integer fits, NonZero only if zero excluded, out-of-range default rejected). No sampling, no input bound.",
+    "C05": "Deductive check (Kani/CBMC) of the generation-time string-length filter against the property's wording (lengths in Unicode scalar values) for every Option<u32> bound pair and every string of at most 2 scalar values (all code points, all UTF-8 widths); bounded in the number of characters, so level `other`, not proof." + PARTIAL,
+    "C06": "Deductive check of leaf default validation (type soundness, intrinsic-default and generic-function classification), of enum-default membership and of the property-default classification table over symbolic JSON payloads (all u64 / i64 / finite f64), one harness per type kind; the numeric range clause is C10/P3. Kinds and container shapes are enumerated, so level `other`." + PARTIAL,
+    "C07": "Deductive check that the edge relation used by cycle breaking (get_child_ids) is exactly by-value containment and that its slots alias the entry, one harness per kind with symbolic identifiers; vectors of at most 2 children, enum arm not decided (CBMC does not terminate on it). The traversal itself is not verified." + PARTIAL,
+    "C08": "Deductive check that recase emits a rename exactly when the identifier differs from the JSON name and that the rename is the JSON name, for every sanitiser (sanitize replaced by an arbitrary string) and every name of at most 2 Unicode scalar values." + PARTIAL,
+    "C09": "Deductive check that the leaf merges of allOf (instance types on a seven-class abstraction of JSON values, formats on enumerated literal pairs, choose_value) are intersections, commutative, and unsatisfiable only when really so." + PARTIAL,
+    "C10": "Proof over the full input domain of the selection functions: for each of the format classes the numeric keywords, the default and the probe integer are symbolic over all finite f64, every loop is bounded by a constant of the code with unwinding assertions on, and the postconditions are the property's own wording (admitted integer fits, NonZero only if zero excluded, out-of-range default rejected); the string- and float-format tables are proved for every format string of at most 10 / 7 bytes. No sampling, no input bound on the numeric domain.",
+    "C15": "Deductive check of the CLI argument layer on text extracted mechanically from cargo-typify/src/lib.rs on every run (clap attributes dropped): crate-specifier grammar over symbolic crate-name characters, version meaning, output-path rule, builder flag; CrateVers::parse on the real crate." + PARTIAL,
+    "C16": "Proof (Verus) of function contracts on the identifier allocator, on function text extracted byte-identically from /repo on every run: representation invariant, monotone identifiers, stability of every identifier handed out earlier, no index entry re-pointed, exact effect of by-name and structural reuse, and the invariant that no two entries carry one name -- for all inputs and all map contents, callers checked against callee contracts." + PARTIAL,
+    "C17": "Deductive check of has_impl against a literal table of std trait facts for the built-in kinds (symbolic trait, kinds enumerated), native types against their registered impls, structs against their default; uses_uuid / uses_chrono set whenever the string-format path chooses such a type (every format string of at most 10 bytes)." + PARTIAL,
 }
 LEVEL_NOTE = {
-    "C10": "Trusted: Kani/CBMC float and memcmp models (every refutation is replayed natively before it is reported), harness support kani/common.rs, the literal range tables of the harness; the routing of integer schemas to convert_integer by the unverified driver. Quick tier proves the inclusive-bound, exclusive-bound and default sub-domains for three format classes; thorough proves all six keywords for all 13 format classes.",
+    "C05": "Trusted: Kani/CBMC models (refutations are replayed natively), kani/common.rs. Not decided: everything C05 says about emitted impls (token templates), patterns, allow/deny lists, deny_unknown_fields, required.",
+    "C06": "Trusted: Kani/CBMC models, serde_json Value/Number constructors, harness support. Not decided: nested defaults, rendering (value.rs), emitted Default impls, native kinds.",
+    "C07": "Trusted: Kani/CBMC models, kani/te_support.rs constructors. NOT verified: break_cycles (the traversal), the Enum arm of get_child_ids; a change there is not detected.",
+    "C08": "Trusted: stub_sanitize (arbitrary string) in place of sanitize, which Kani cannot compile (syn::parse_str). A refutation cannot be replayed natively (the stub consumes nondeterministic values) and is reported with no-failing-input-found. Not decided: identifier validity and distinctness.",
+    "C09": "Trusted: the seven-class abstraction of JSON values; format strings are enumerated literals. Known finding: distinct integer formats merge to `never` (the code's TODO). Not decided: merge_schema, objects, arrays' item schemas, anyOf/oneOf/not distribution.",
+    "C10": "Trusted: Kani/CBMC float and memcmp models (every refutation is replayed natively before it is reported), harness support kani/common.rs, the literal range tables of the harness; the routing of integer schemas to convert_integer by the unverified driver. Quick tier proves the inclusive-bound, exclusive-bound, four-bound and default sub-domains for the format classes none/uint8/int64/uint64; thorough proves all six keywords for all 13 format classes. Known finding: a default of exactly 2^63 (int64) / 2^64 (uint64) is accepted (f64 table).",
+    "C15": "Trusted: lib/c15_prepare.py's drop list (clap attributes removed; clap is assumed to hand --crate values to CrateSpec::from_str), semver. Not decided: token-for-token equality of the three front ends, the macro, convert()'s option mapping, I/O in main.rs.",
+    "C16": "Trusted: vstd's BTreeMap / String / Into specifications, two assumed Clone specifications, keys_lawful() (Ord of the key types is lawful -- for TypeEntryDetails only on unnamed kinds, and wf proves only those become keys), verus/prelude.rs, the extractor's drop list D1-D9. Known finding: convert_ref_type re-points the by-name index (duplicate definitions). NOT under contract: add_ref_types_impl's loops, id_for_schema, break_cycles, finalize.",
+    "C17": "Trusted: the literal table of std trait facts in the harness. Not decided: every clause relating the API to emitted items (fields, variants, builder, emitted impls of named types), the remaining uses_* sites.",
 }
 TECHNIQUE = {
-    "C10": "Kani/CBMC deductive check of postconditions on the real convert_integer/convert_number/convert_string over symbolic f64 inputs",
+    "C05": "Kani/CBMC function-level postcondition check of StringValidator::{is_valid,new} on the real crate, symbolic chars and bounds",
+    "C06": "Kani/CBMC postcondition checks of validate_value / validate_default_for_external_enum / has_default on the real crate, symbolic JSON payloads",
+    "C07": "Kani/CBMC postcondition + frame check of get_child_ids per entry kind on the real crate",
+    "C08": "Kani/CBMC postcondition check of recase with sanitize abstracted by a nondeterministic stub",
+    "C09": "Kani/CBMC postcondition checks of merge_so_instance_type / merge_so_format / choose_value against an abstract admits() specification",
+    "C10": "Kani/CBMC deductive check of postconditions on the real convert_integer / convert_number / convert_string over symbolic f64 inputs and symbolic format strings",
+    "C15": "Kani/CBMC postcondition checks on mechanically extracted CLI argument code (CrateSpec::from_str, CliArgs) and on CrateVers::parse",
+    "C16": "Verus function contracts (requires/ensures, representation invariant, frame) on mechanically extracted allocator functions; native search for counterexamples",
+    "C17": "Kani/CBMC postcondition checks of TypeEntry::has_impl against a table of std facts, and of the uses_* flags on convert_string",
 }
